@@ -16,10 +16,10 @@ checks = {
    note="Bounded schedules and histories; data races are decided at the granularity of the driver connection (every network operation is an access to the connection state), plain accesses to library fields are instrumented too (vrt.Rd/Wr), the rest is covered by the companion free-running -race pass; known findings (driver-state race at teardown; socket and watcher goroutine left behind when the cancel lands between the driver's dial and its first look at the context: defect of the driver dependency) are listed in known_findings.json; the library's time.Now() is an environment choice of the explorer (virtual clock: 1 ms or, for one deviation, 1 h); a scale half on the native engine ends the stream by a handler failure with the master 200 .. 18 000 packets ahead; the -race companion also runs two Streamers at a time in one process; the native half runs the deterministic two-stream executions (one stream inside the handler / mapper calls of another); Error() before any Stream call is a scenario; a handler that panics is not a stop cause of the property."),
  "C06": dict(engine="E1", design="6/C06", tech="stateless model checking of thread schedules (bounded deviations) x fault enumeration; oracle: cause -> (Stream, Error()) table evaluated on the facts of each execution",
    text="Same schedule space as C05; on every execution the returned values are checked against the facts of that execution: callback / connect / bad-event failures give Stream != nil; Stream == nil && Error() == nil only after a cancel issued before return or a consumed master EOF; ERR packets surface their message, transport failures their cause.",
-   note="ERR alphabet: 3 codes x with/without SQL state x 1..300 byte messages; a cancel after Stream returned is outside the claim (the repository's TestStreamer_Error pins Error()==nil for a cancelled context); handler failures of six identities (plain, wrapping the context errors of the consumer's own context, io.EOF, driver.ErrBadConn, mysql.ErrInvalidConn); unsupported events followed by the master's EOF; rows for a table id that only an earlier Stream call saw announced; native half: a table that comes back under a new id whose lookup fails, two-stream executions."),
+   note="ERR alphabet: 3 codes x with/without SQL state x 1..300 byte messages; a cancel after Stream returned is outside the claim (the repository's TestStreamer_Error pins Error()==nil for a cancelled context); handler failures of six identities (plain, wrapping the context errors of the consumer's own context, io.EOF, driver.ErrBadConn, mysql.ErrInvalidConn); unsupported events followed by the master's EOF; rows for a table id that only an earlier Stream call saw announced; ERR packets of 1 .. 6 bytes in place of an event (the reader's failure is what Error() reports); native half: a table that comes back under a new id whose lookup fails, two-stream executions, Error() read after the deadline of the caller's context has passed."),
  "C07": dict(engine="E1", design="6/C07", tech="stateless model checking of schedules x enumeration of server ids / start positions / attempt sequences; oracle: wire monitor in the simulated master",
    text="For every server id of the boundary set, every valid start position of a two-file history and every attempt sequence of the retry grid, the command sequence decoded by the simulated master must be SET @master_binlog_checksum, then exactly one blocking COM_BINLOG_DUMP with the configured id and the streamer's current position, then only COM_QUIT.",
-   note="File names and 32-bit offsets beyond the two-file history are covered by C03's history enumeration (same wire monitor); binlog_checksum changed at the rotation with two lost connections before the clean attempt (H2c / H2d); a scale half on the native engine checks the dump request of the attempt that follows a fault inside one transaction of 20 000 rows events and the dump requests (position, server id) of two Streamers side by side."),
+   note="File names and 32-bit offsets beyond the two-file history are covered by C03's history enumeration (same wire monitor); binlog_checksum changed at the rotation with two lost connections before the clean attempt (H2c / H2d); a scale half on the native engine checks the dump request of the attempt that follows a fault inside one transaction of 20 000 rows events and the dump requests (position, server id) of two Streamers side by side and of a stream whose context carries a deadline (still a blocking dump)."),
  "C08": dict(engine="E1", design="6/C08", tech="stateless model checking of schedules (bounded deviations, short-read environment choices) with snapshot / scribbling handlers; oracle: deep snapshot equality + reference deliveries",
    text="History H8 carries every slice-valued type with packets below, at and above the driver's 4096-byte buffer; under every schedule up to the bound (including the environment choice of short reads) a deep snapshot taken in the handler must equal the same object re-read after later activity, and with a handler that overwrites all delivered bytes every later delivery must still equal the reference.",
    note="Bounded to H8/H1 and the deviation bound in the explorer; packets larger than 2 buffers are covered by the scale half only (native engine, one schedule each: packets of exactly 2^k-1 / 2^k / 2^k+1 bytes up to 64 KiB and around the driver's 256 KiB cached-buffer limit, rows events up to 300 KB, transactions with exactly as many events as every capacity a slice grown by append passes through, all kept by the handler and re-read when the stream has ended; partial row images with a keeping and with an overwriting handler, pointer identity of the delivered objects; two-stream executions); the scribbling handler overwrites every field of what it was given, the Transaction struct included."),
